@@ -45,7 +45,10 @@ ASSUMPTIONS = ['ALIASES is a dict of str to str; alias names are not names of at
                'may keep its name or take any of its aliases',
                'cyclic alias maps: non-termination is the known finding; a prompt exception, or dropping pure '
                'self-maps, is accepted as meeting the property',
-               'label -> position lookup and NumPy assignment semantics are parameters of the model (C09/C10)']
+               'label -> position lookup and NumPy assignment semantics are parameters of the model (C09/C10)',
+               'read/write = the four wrapped accessors, replace_values, constructor keywords and code that uses them '
+               '(weaker reading); paths the mixin does not wrap are not claimed: `name in model`, eval() of an expression '
+               'that spells an alias, reindex(**fill_values) keyed by an alias are not alias-aware on the current tree']
 
 META = {
     "text": "Theorems for every alias map, store, value semantics and operation history: the shortening loop of AliasMixin.__init__ exits within |map| rounds iff the map is acyclic, then every alias points at the end of its chain (distances double per round) and the k != v filter is dead code; with a self-map or cycle the exit test fails after every round (non-termination, negation proved at {'Y': 'Y'} and {'A': 'B', 'B': 'A'}); on an instance map every read/write/label access/bulk replacement/constructor keyword through a name is the plain container's operation on resolve(name), for all histories (refinement), two spellings that resolve alike are indistinguishable, the index never changes and no attribute named like an alias is ever created; the export changes labels only (data, count, order kept), a changed label is an alias of the old one, labels stay distinct under the guard, the preferred name is chosen, ambiguous preferences are rejected by the constructor check (iff) and by the export. The model is tied to the code by exhaustive comparison over small alias maps / preference lists and random histories; a twin-model oracle searches the real code.",
